@@ -38,6 +38,7 @@ class FsScenario(Scenario):
     allow_ops = None
     paced_share = 0.0  # share of runs that drain after every operation
     unpaced_share = 0.0  # share of the remaining runs whose history ignores the directory pacing condition
+    paced_out = True  # operations on entries that have left the tree wait for a drain after the move out
     with_probes = True
     nonrec_share = 0.2
     full_share = 0.2
@@ -50,7 +51,7 @@ class FsScenario(Scenario):
             "recursive": cfg.random() >= self.nonrec_share,
             "full": cfg.random() < self.full_share,
             "root_kind": cfg.choice(["str", "str", "bytes"]),
-            "spelling": "abs",
+            "spelling": cfg.choice(["abs", "abs", "abs", "abs", "rel", "reldot", "slash", "dot", "dslash"]),
         }
 
     enum_first = False
@@ -92,7 +93,7 @@ class FsScenario(Scenario):
             w.pop("drain", None)
         else:
             w["drain"] = cfg.choice([0, 1, 3, 6])
-        ops = fm.gen_ops(rng, m, n, names=self_names, weights=w, paced=not unpaced, drain_each=paced, allow=self.allow_ops)
+        ops = fm.gen_ops(rng, m, n, names=self_names, weights=w, paced=not unpaced, drain_each=paced, allow=self.allow_ops, paced_out=self.paced_out)
         faults = {}
         if frng.random() < 0.5:
             faults["short_read"] = [frng.choice([32, 48, 64, 96, 300, 0]) for _ in range(frng.randrange(1, 5))]
@@ -122,7 +123,7 @@ class FsScenario(Scenario):
                 c["ops"] = ops
             pre_kept, _ = fm.revalidate([], c["pre"], paced=False)
             c["pre"] = pre_kept
-            kept, _ = fm.revalidate(c["pre"], c["ops"], paced=not case.get("unpaced"))
+            kept, _ = fm.revalidate(c["pre"], c["ops"], paced=not case.get("unpaced"), paced_out=self.paced_out)
             c["ops"] = kept
             return c
 
@@ -158,7 +159,7 @@ class FsScenario(Scenario):
         run.enable_monitoring()
         res = {}
         # independent re-validation of the pre-condition (pacing rule) on the history about to be executed
-        kept, _ = fm.revalidate(case["pre"], case["ops"], paced=not case.get("unpaced"))
+        kept, _ = fm.revalidate(case["pre"], case["ops"], paced=not case.get("unpaced"), paced_out=self.paced_out)
         if kept != case["ops"]:
             return {"harness_error": f"history violates the pacing pre-condition or the model: {case['ops']} vs {kept}", "violations": [], "stats": {}, "digest": "", "trace": {}}
 
@@ -420,6 +421,7 @@ class C07(FsScenario):
     level_note = C01.level_note + "; fault-free and vanish-fault configurations are counted separately in the evidence"
     weights = OUT_WEIGHTS
     nonrec_share = 0.15
+    paced_out = False  # liveness must hold when a moved-out directory is touched or removed at once (within the pairing delay)
 
     def tweak(self, case, rng, cfg):
         frng = random.Random(f"{cfg.random()}:vanish")
@@ -430,7 +432,6 @@ class C07(FsScenario):
             n0 = len(m.dirs_in("root"))  # add_watch calls made by schedule/start itself are never faulted
             case["faults"]["vanish"] = {str(n0 + frng.randrange(0, 12)): True for _ in range(frng.choice([1, 1, 2]))}
         if rng.random() < 0.25:
-            kept, m = fm.revalidate(case["pre"], case["ops"], paced=True)
             case["ops"].append(["drain"])
             case["ops"].append(["rmroot"])
         elif rng.random() < 0.2:
